@@ -87,6 +87,7 @@ def registration_mode(prog, w: ClassInfo) -> Dict[str, List[str]]:
 def run(prog, chk):
     chk.decided += [
         "script-registration mode (explicit script/language statements vs. bare lookups that rely on languagesystem) agrees across the GPOS writers of the default writer list, or something adds languagesystem statements (R20.1)",
+        "where scripts are registered explicitly, the languages registered under a tag are exactly those the feature file declares for that tag, default ['dflt'] (R20.2)",
     ]
     chk.not_decided += ["which scripts a given font ends up with in the compiled ScriptList"]
     writers = default_writers(prog)
@@ -122,6 +123,7 @@ def run(prog, chk):
         else:
             raise AnalysisError(f"cannot determine how {w.name} registers its lookups")
     chk.minimum("R20.1", 6)
+    r202(prog, chk)
 
 
 def feature_tags(prog, w: ClassInfo) -> Set[str]:
@@ -136,7 +138,50 @@ def where_cls(w: ClassInfo) -> str:
     return f"{w.module.relpath}:{w.node.lineno}"
 
 
+# ----------------------------------------------------------------------------- R20.2
+def r202(prog, chk):
+    """Explicit registration: at every addLookupReferences(feature, lookups, <tag>, <languages>)
+    the languages are exactly the ones the feature file declares for that same tag
+    (<declared-by-tag>.get(<tag>, ["dflt"])).  Registering a language under a tag for
+    which it is not declared creates a language system that only the kerning
+    feature knows."""
+    n = 0
+    for fi in prog.ix.functions.values():
+        for c in calls_named(fi, "addLookupReferences"):
+            tag = A.arg_at(c, 2, "script")
+            langs = A.arg_at(c, 3, "languages")
+            if tag is None:
+                continue
+            n += 1
+            k = f"{fi.short}|{A.keytext(fi.node, c)[:70]}"
+            v = langs
+            if isinstance(v, ast.Name):
+                ds = prog.reaching(fi, v.id, v)
+                v = ds[0].element()[0] if len(ds) == 1 and ds[0].element()[1] is None else None
+            ok = isinstance(v, ast.Call) and isinstance(v.func, ast.Attribute) and v.func.attr == "get" and len(v.args) == 2
+            why = "languages are not `<declared languages by tag>.get(tag, ['dflt'])`"
+            if ok:
+                same = T(v.args[0]) == T(tag)
+                if same and isinstance(tag, ast.Name):
+                    # the same binding of the tag variable at both places
+                    same = {id(d.binder) for d in prog.reaching(fi, tag.id, tag)} == {id(d.binder) for d in prog.reaching(fi, v.args[0].id, v.args[0])}
+                dflt = isinstance(v.args[1], (ast.List, ast.Tuple)) and [T(x) for x in v.args[1].elts] == ["'dflt'"]
+                src = "languages" in T(v.func.value).lower()
+                ok = same and dflt and src
+                why = (f"languages are looked up for `{T(v.args[0])}` but registered under `{T(tag)}`" if not same else
+                       "the default is not ['dflt']" if not dflt else f"`{T(v.func.value)}` is not the declared-languages table")
+            chk.ob("R20.2", k, ok, where(fi, c), detail=f"{T(tag)} -> {T(v, 60) if v is not None else T(langs)}",
+                   message=f"{fi.short}: {why}: a script tag gets language systems that are not declared for it (only kerning is registered there)")
+    chk.minimum("R20.2", 4)
+
+
 MUTANTS = [
+    M("languages gathered per Unicode script instead of per tag (seeded C20b)", "ufo2ft/featureWriters/kernFeatureWriter.py", "KernFeatureWriter._registerLookups",
+      "languages = feaLanguagesByScript.get(tag, ['dflt'])", "languages = [l for t in unicodedata.ot_tags_from_script(script) for l in feaLanguagesByScript.get(t, ())] or ['dflt']", rule="R20.2"),
+    M("v2 registers DFLT's languages under every tag", "ufo2ft/featureWriters/kernFeatureWriter2.py", "register_lookups",
+      "languages = context.feaLanguagesByTag.get(tag, ['dflt'])", "languages = context.feaLanguagesByTag.get('DFLT', ['dflt'])", rule="R20.2"),
+    M("undeclared tags get no language at all", "ufo2ft/featureWriters/kernFeatureWriter.py", "KernFeatureWriter._registerLookups",
+      "languages = feaLanguagesByScript.get(tag, ['dflt'])", "languages = feaLanguagesByScript.get(tag, [])", rule="R20.2"),
     M("GDEF writer (or any third GPOS writer) starts registering scripts explicitly in only one writer", "ufo2ft/featureWriters/cursFeatureWriter.py", "CursFeatureWriter._makeCursiveFeature",
       "feature.statements.extend(lookups)", "ast.addLookupReferences(feature, lookups, 'DFLT', ['dflt'])\nfeature.statements.extend(lookups)", rule="R20.1"),
     M("a new default GPOS writer with bare lookups is added", "ufo2ft/featureCompiler.py", "FeatureCompiler",
